@@ -18,7 +18,8 @@
 (***************************************************************************************************)
 EXTENDS Rat, TLC, FiniteSets, Sequences, Json, Randomization
 CONSTANTS NMem, Inits, PropPairs, FracGrid, TotalRanges, Plains, ConFactors, WGrid,
-          PkgSample        \* 0: every proportion-bound vector and proposal of the grids; k > 0: k random ones of each per fixed part (three members)
+          PkgSample,       \* 0: every proportion-bound vector and proposal of the grids; > 0: the vectors below (three members), drawn by the harness
+          SampPB, SampFR   \* with a seeded generator
 VARIABLES fixed, case, obs
 vars == <<fixed, case, obs>>
 Mem == 1..NMem
@@ -64,8 +65,8 @@ Mk(f, pb, fr, pt, pl) == [init |-> f.init, tr |-> f.tr, con |-> f.con, pb |-> pb
 Init == /\ fixed \in {[init |-> s, tr |-> t, con |-> k] : s \in Inits, t \in TotalRanges, k \in ConFactors}
         /\ case = <<>> /\ obs = ""
 Pick == /\ case = <<>>
-        /\ \E pb \in (IF PkgSample = 0 THEN [Mem -> PropPairs] ELSE RandomSubset(PkgSample, [Mem -> PropPairs])),
-              fr \in (IF PkgSample = 0 THEN [Mem -> FracGrid] ELSE RandomSubset(PkgSample, [Mem -> FracGrid])), pl \in Plains :
+        /\ \E pb \in (IF PkgSample = 0 THEN [Mem -> PropPairs] ELSE SampPB),
+              fr \in (IF PkgSample = 0 THEN [Mem -> FracGrid] ELSE SampFR), pl \in Plains :
              \E pt \in {fixed.tr[1], One, fixed.tr[2]} :
               LET c == Mk(fixed, pb, fr, pt, pl) IN
               /\ Valid(c)
